@@ -602,16 +602,13 @@ var mul32 = []*instructionType{
 		immediate:    immTypeR,
 		effects: func(i instruction) []expr.Effect {
 			r1, r2 := regLoad(rs1, i, width32), regLoad(rs2, i, width32)
-			r1Abs := exprtools.Abs(r1, width32)
-			mul := expr.NewBinary(expr.Mul, r1Abs, r2, width64)
+			// Signed (sign extended) rs1 is multiplied by unsigned
+			// (zero extended) rs2.
+			r1Ext := sext(r1, 31, width64)
+			mul := expr.NewBinary(expr.Mul, r1Ext, r2, width64)
 			shift := expr.ConstFromUint[uint8](32)
 			shifted := expr.NewBinary(expr.Rsh, mul, shift, width64)
-			val := exprtools.BoolCond(
-				exprtools.IntNegative(r1, width32),
-				shifted,
-				exprtools.Negate(shifted, width32),
-				width32,
-			)
+			val := exprtools.NewWidthGadget(shifted, width32)
 			return []expr.Effect{regStore(val, i, width32)}
 		},
 	}, {
